@@ -318,16 +318,17 @@ theorem mustacheParserReset_tie :
     ((fieldsOf "MustacheParser.Clear").filter (· != "tokenizer")).all (resetOf "MustacheParser.Clear").contains = true := by
   decide
 
-/-- `SetReader` assigns the three per-input fields of the tokenizer (the other fifteen are configuration);
-the mustache tokenizer re-derives its mode fields whenever the reader changed -/
+/-- `SetReader` assigns the three per-input fields of the tokenizer and advances the input counter (the other
+fifteen are configuration); the mustache tokenizer re-derives its mode fields whenever the counter moved, i.e. on
+every `SetReader`, also of the same scanner object (D34) -/
 theorem tokenizerReset_tie :
-    resetOf "AbstractTokenizer.SetReader" = ["Scanner", "NextTokenValue", "LastTokenType"] ∧
+    resetOf "AbstractTokenizer.SetReader" = ["Scanner", "NextTokenValue", "LastTokenType", "ReaderVersion"] ∧
     (fieldsOf "AbstractTokenizer.SetReader").filter (fun f => !(resetOf "AbstractTokenizer.SetReader").contains f) =
       ["Overrides", "mp", "skipUnknown", "skipWhitespaces", "skipComments", "skipEof", "mergeWhitespaces",
        "unifyNumbers", "decodeStrings", "commentState", "numberState", "quoteState", "symbolState",
        "whitespaceState", "wordState"] ∧
-    fieldsOf "MustacheTokenizer.ReadNextToken" = ["special", "specialState", "reader"] ∧
-    resetOf "MustacheTokenizer.ReadNextToken" = ["reader", "special"] := by
+    fieldsOf "MustacheTokenizer.ReadNextToken" = ["special", "specialState", "readerVersion"] ∧
+    resetOf "MustacheTokenizer.ReadNextToken" = ["readerVersion", "special"] := by
   decide
 
 /-- the calculator and the template keep no per-input state of their own (their parser does) -/
